@@ -29,8 +29,8 @@ ASSUMPTIONS = [
     "values come from small domains; backend=None passed explicitly to a context is outside the domain",
 ]
 SHARDS = {"quick": 12, "thorough": 14}
-FLOORS = {"quick": {"observations": 20000, "thread_interleaved_observations": 3000, "exception_exits": 300, "contexts_created_without_with_inside_a_block": 300},
-          "thorough": {"observations": 600000, "thread_interleaved_observations": 100000, "exception_exits": 10000, "contexts_created_without_with_inside_a_block": 8000}}
+FLOORS = {"quick": {"observations": 20000, "thread_interleaved_observations": 3000, "exception_exits": 300, "contexts_created_without_with_inside_a_block": 300, "blocks_left_through_generator_close": 150},
+          "thorough": {"observations": 600000, "thread_interleaved_observations": 100000, "exception_exits": 10000, "contexts_created_without_with_inside_a_block": 8000, "blocks_left_through_generator_close": 4000}}
 
 KEYS = ["backend", "n_jobs", "verbose", "prefer", "require", "max_nbytes", "mmap_mode", "temp_folder"]
 DOM = {"backend": ["threading", "loky", "multiprocessing", "custom_threads", "custom_procs"],
@@ -298,6 +298,21 @@ def run_thread(tid, nesting, explicits, exit_by_exc, barrier, ctx, out, lock):
             with lock:
                 out["ctor_err"] += 1
             return
+        if cfg.get("_in_generator"):
+            # the block lives in a generator function and is left because the generator is closed early (GeneratorExit)
+            def body():
+                with cm:
+                    yield
+            stack.append(effective(cfg))
+            g = body()
+            next(g)
+            rec(i + 1)
+            stack.pop()
+            g.close()
+            with lock:
+                out["generator_exits"] += 1
+            observe(("after-generator-close", i))
+            return
         try:
             with cm:
                 stack.append(effective(cfg))
@@ -341,7 +356,7 @@ def run_thread(tid, nesting, explicits, exit_by_exc, barrier, ctx, out, lock):
 
 def run_program(threads_spec, ctx):
     lock = threading.Lock()
-    out = dict(obs=0, viol=[], sigs=[], exc_exits=0, ctor_err=0, inner_nowith=0)
+    out = dict(obs=0, viol=[], sigs=[], exc_exits=0, ctor_err=0, inner_nowith=0, generator_exits=0)
     nthreads = len(threads_spec)
     barrier = threading.Barrier(nthreads)
     ths = []
@@ -358,6 +373,7 @@ def run_program(threads_spec, ctx):
         ctx.count("thread_interleaved_observations", out["obs"])
     ctx.count("exception_exits", out["exc_exits"])
     ctx.count("contexts_created_without_with_inside_a_block", out["inner_nowith"])
+    ctx.count("blocks_left_through_generator_close", out["generator_exits"])
     ctx.count("context_ctor_valueerror", out["ctor_err"])
     for s in out["sigs"]:
         ctx.sig(s)
@@ -390,6 +406,9 @@ def run_case(case, ctx):
         depth = rng.randint(0, 4)
         nesting = [rand_cfg(rng, 3) for _ in range(depth)]
         for cfg in nesting:
+            if rng.random() < 0.15:
+                cfg["_in_generator"] = True
+                continue
             if rng.random() < 0.2:
                 cfg["_inner"] = rand_cfg(rng, 3)
                 cfg["_inner_unregister"] = rng.random() < 0.5
